@@ -82,7 +82,11 @@ EXTRA_MOLS = {
     "CH2OH+": ([("C", (0.0, 0.0, 0.0)), ("O", (1.25, 0.0, 0.0)), ("H", (-0.55, 0.94, 0.0)), ("H", (-0.55, -0.94, 0.0)),
                 ("H", (1.7, 0.85, 0.0))], 0, 1),
 }
-MOL_NAMES = ["He", "Li", "H", "H2", "LiH", "HF", "H2O", "NH2", "NH3", "H2O2", "CH3", "OH-", "HOF", "O2"] + sorted(EXTRA_MOLS)
+# molecules with an effective core potential (mol.atom_charge is then Z minus the core electrons; grids go by the element):
+# added after a seeded change of the nuclear-charge lookup that only matters under an ECP
+ECP_MOLS = {"HCl/ecp": ("HCl", {"Cl": "lanl2dz"}), "NaF/ecp": ("NaF", {"Na": "lanl2dz"}), "SiH3/ecp": ("SiH3", {"Si": "lanl2dz"})}
+MOL_NAMES = (["He", "Li", "H", "H2", "LiH", "HF", "H2O", "NH2", "NH3", "H2O2", "CH3", "OH-", "HOF", "O2"] + sorted(EXTRA_MOLS)
+             + sorted(ECP_MOLS))
 ATOM_GRIDS = [(20, 50), (35, 110), (50, 194), (25, 86), (30, 302), (40, 146), (15, 26), (60, 434), (12, 14), (45, 74),
               (28, 170), (18, 38), (10, 6), (55, 266)]
 THRESHOLDS = [1e-9, 1e-7, 1e-5, 1e-3, 1e-1, 0.0]
@@ -103,7 +107,7 @@ def _balanced(rng, values, n):
 
 def _elements(name):
     from vlib import gen
-    atoms = (gen.MOLS.get(name) or EXTRA_MOLS[name])[0]
+    atoms = (gen.MOLS.get(ECP_MOLS[name][0] if name in ECP_MOLS else name) or EXTRA_MOLS[ECP_MOLS[name][0] if name in ECP_MOLS else name])[0]
     out = []
     for a in atoms:
         if a[0] not in out:
@@ -199,13 +203,21 @@ def classify_sanitizer(blocks):
 def _mol(cfg, rng):
     from vlib import gen
     name = cfg["mol"]
+    ecp = None
+    if name in ECP_MOLS:
+        name, ecp = ECP_MOLS[name]
     if name in gen.MOLS:
         atoms, spin, charge = gen.MOLS[name]
     else:
         atoms, spin, charge = EXTRA_MOLS[name]
     # random atom order: element-grouped listings hide per-element / per-atom table mix-ups
     atoms = [atoms[int(i)] for i in rng.permutation(len(atoms))]
-    return gen.make_mol(None, "sto-3g", rng, jitter=0.05, atoms=atoms, spin=spin, charge=charge)
+    if ecp is None:
+        return gen.make_mol(None, "sto-3g", rng, jitter=0.05, atoms=atoms, spin=spin, charge=charge)
+    from pyscf import gto
+    xyz = np.array([a[1] for a in atoms], dtype=float) + 0.05 * rng.normal(size=(len(atoms), 3))
+    basis = {a[0]: ("lanl2dz" if a[0] in ecp else "sto-3g") for a in atoms}
+    return gto.M(atom=[(a[0], tuple(x)) for a, x in zip(atoms, xyz)], basis=basis, ecp=ecp, spin=spin or 0, charge=charge or 0, verbose=0)
 
 
 def _atom_grid(cfg, drop_default=False):
